@@ -33,6 +33,8 @@ type loopInfo struct {
 	modAll   bool
 	allocs   bool
 	line     int
+	strIter  *ssa.Range // string range loop: the iterator advanced at the head
+	strKey   *ssa.Alloc
 }
 
 func (x *Exec) assert(st *State, class string, goal *Term, desc string, pos token.Pos) {
@@ -438,6 +440,10 @@ func (x *Exec) instrMods(in ssa.Instruction, li *loopInfo, seen map[*ssa.Functio
 		for _, lf := range leavesOf(et) {
 			li.modHeap[elemKeyBase(et)+lf.suffix] = true
 		}
+	case *ssa.Next:
+		if rng, ok := i.Iter.(*ssa.Range); ok && i.IsString {
+			li.strIter = rng
+		}
 	case *ssa.MakeMap, *ssa.MakeClosure, *ssa.MakeChan:
 		li.allocs = true
 	case *ssa.MakeInterface:
@@ -570,7 +576,7 @@ func (x *Exec) atLoopHead(st *State, li *loopInfo) bool {
 		if dec != nil {
 			m := env.evalInt(dec.Expr)
 			x.assert(st, fmt.Sprintf("dec:%d", ord), And(Le(IntC(0), vis.measure), Lt(m, vis.measure)), "decreases "+dec.Text, token.NoPos)
-		} else if li.isRange {
+		} else if li.isRange || li.strIter != nil {
 			// automatic variant of a range loop: the hidden index increases towards the fixed length
 		} else {
 			x.assert(st, fmt.Sprintf("dec:%d", ord), tFalse, "loop has no decreases clause", token.NoPos)
@@ -651,6 +657,9 @@ func (x *Exec) loopEnv(st *State, li *loopInfo) *CEnv {
 			env.vars[li.keyVar.Comment] = intSV(next, types.Typ[types.Int])
 		}
 	}
+	if li.strIter != nil && fr.iters != nil && fr.iters[li.strIter] != nil {
+		env.vars["_i"] = intSV(fr.iters[li.strIter], types.Typ[types.Int])
+	}
 	return env
 }
 
@@ -705,6 +714,16 @@ func (x *Exec) bindLocals(env *CEnv, fr *Frame, li *loopInfo) {
 		}
 		env.vars[name] = fr.cells[best]
 	}
+	// local arrays live in the element heaps; bind them by name as sequences
+	for v, sv := range fr.regs {
+		if a, ok := v.(*ssa.Alloc); ok && a.Comment != "" && sv.Dyn != nil && sv.Dyn.K == KSeq {
+			if _, isArr := a.Type().(*types.Pointer).Elem().Underlying().(*types.Array); isArr {
+				if _, taken := env.vars[a.Comment]; !taken {
+					env.vars[a.Comment] = *sv.Dyn
+				}
+			}
+		}
+	}
 	// heap-allocated (escaping) named locals are not bound
 }
 
@@ -730,6 +749,13 @@ func (x *Exec) havocLoop(st *State, li *loopInfo) {
 			old = setPath(old, p, nv)
 		}
 		fr.cells[a] = old
+	}
+	if li.strIter != nil && fr.iters != nil {
+		if it, ok := fr.regs[li.strIter]; ok && it.Dyn != nil {
+			pos := Var(x.freshName("strpos"), SInt)
+			st.assume(And(Le(IntC(0), pos), Le(pos, it.Dyn.Len)))
+			fr.iters[li.strIter] = pos
+		}
 	}
 	if li.isRange {
 		// automatic invariant of the hidden index: -1 <= idx < len
